@@ -231,7 +231,7 @@ func verifBlackBox(capTok, evTok string) (result string) {
 		time.Sleep(10 * time.Millisecond)
 	}
 
-	patience := 3 * time.Second
+	patience := 20 * time.Second // generous: on a heavily loaded machine the handler goroutine may be scheduled late
 	unused := map[turbotunnel.ClientID][]net.Conn{} // carriers no session has used yet, oldest first
 	var out []string
 	var sessions []*smux.Session // established sessions, in order of their a-events
@@ -261,7 +261,7 @@ func verifBlackBox(capTok, evTok string) (result string) {
 			}
 			out = append(out, verifAddrPrint(a.c.RemoteAddr()))
 			closers = append(closers, a.c)
-		case <-time.After(8 * time.Second):
+		case <-time.After(25 * time.Second):
 			return "!accept-timeout"
 		}
 		return ""
